@@ -23,7 +23,8 @@ enum { BAD_NULL_OBJ_KEY, BAD_NULL_OBJ_TKEY, BAD_NULL_OBJ_TWEAK, BAD_NULL_OBJ_CTR
        BAD_ENC_NULL_BOTH, BAD_ENC_NULL_OUT0, BAD_ENC_NULL_IN0, BAD_MANTIS_ROUNDS4, BAD_MANTIS_ROUNDS9,
        BAD_MANTIS_KEY15, BAD_MANTIS_KEY17, BAD_MANTIS_TWEAK7, BAD_MANTIS_TWEAK9,
        BAD_TWEAK_NULL_LEN0, BAD_TWEAK_NULL_LONG, BAD_CTR_NULL_LONG, BAD_MANTIS_TWEAK_NULL7, BAD_MANTIS_TWEAK_NULL9,
-       BAD_MANTIS_ROUNDS37, BAD_MANTIS_ROUNDS_HIGH, BAD_NCLASSES };
+       BAD_MANTIS_ROUNDS37, BAD_MANTIS_ROUNDS_HIGH,
+       BAD_CTR_256, BAD_CTR_256B, BAD_CTR_65536B, BAD_TWEAK_256B, BAD_TWEAK_65536B, BAD_CTR_NULL_256B, BAD_NCLASSES };
 static const char *BADNAME[BAD_NCLASSES] = {
     "set_key(NULL object)", "set_tweaked_key(NULL object)", "set_tweak(NULL object)", "set_counter(NULL object)",
     "encrypt(NULL object)", "set_key(NULL key)", "set_tweaked_key(NULL key)", "set_key(len below range)",
@@ -33,7 +34,9 @@ static const char *BADNAME[BAD_NCLASSES] = {
     "encrypt(NULL input, 0 bytes)", "set_key(rounds 4)", "set_key(rounds 9)", "set_key(15-byte key)",
     "set_key(17-byte key)", "set_tweak(len 7)", "set_tweak(len 9)",
     "set_tweak(NULL, len 0)", "set_tweak(NULL, len block+1)", "set_counter(NULL, len block+1)", "set_tweak(NULL, len 7)", "set_tweak(NULL, len 9)",
-    "set_key(rounds 37)", "set_key(rounds 2^31+6)" };
+    "set_key(rounds 37)", "set_key(rounds 2^31+6)",
+    /* lengths that equal a legal one modulo 2^8 / 2^16 */
+    "set_counter(len 256)", "set_counter(len 256+block)", "set_counter(len 65536+block)", "set_tweak(len 256+block)", "set_tweak(len 65536+block)", "set_counter(NULL, len 256+block)" };
 
 /* ---------------- configuration ---------------- */
 static int g_mode;
@@ -470,7 +473,7 @@ static void w_apply(int opi, int check)
         W.phase = PH_CLEANED; W.keyed = 0;
         break;
     case T_BAD: {
-        static const uint8_t kk[64] = {1,2,3,4,5,6,7,8,9,10,11,12,13,14,15,16,17,18,19,20};
+        static const uint8_t kk[1024] = {1,2,3,4,5,6,7,8,9,10,11,12,13,14,15,16,17,18,19,20};
         uint8_t small[8];
         int B = g_bs;
         for (i = 0; i < g_nbe; ++i) {
@@ -509,6 +512,12 @@ static void w_apply(int opi, int check)
             /* round counts that equal a legal one modulo 32 / modulo 2^31 */
             case BAD_MANTIS_ROUNDS37: r[i] = ctr_set_key(g_c, ob, kk, 16, 37); break;
             case BAD_MANTIS_ROUNDS_HIGH: r[i] = ctr_set_key(g_c, ob, kk, 16, 0x80000006u); break;
+            case BAD_CTR_256: r[i] = ctr_set_counter(g_c, ob, kk, 256); break;
+            case BAD_CTR_256B: r[i] = ctr_set_counter(g_c, ob, kk, 256u + (unsigned)B); break;
+            case BAD_CTR_65536B: r[i] = ctr_set_counter(g_c, ob, kk, 65536u + (unsigned)B); break;
+            case BAD_TWEAK_256B: r[i] = ctr_set_tweak(g_c, ob, kk, 256u + (unsigned)B); break;
+            case BAD_TWEAK_65536B: r[i] = ctr_set_tweak(g_c, ob, kk, 65536u + (unsigned)B); break;
+            case BAD_CTR_NULL_256B: r[i] = ctr_set_counter(g_c, ob, NULL, 256u + (unsigned)B); break;
             }
         }
         if (check) {
